@@ -359,7 +359,9 @@ static void Gen(const string& kind, unsigned long long seed, long n, FILE* out) 
   Rng r(seed);
   for (long i = 0; i < n; ++i) {
     int len = 20 + r.below(120);
+    // very long names too (records beyond 1 KiB), only in some histories to keep the traces small
     vector<string> names = {"a", "bb", "ccc", "dddd", "out/e.o", "f g", string(40 + r.below(200), 'x')};
+    if (kind == "blog" && i % 4 == 0) names.push_back(string(990 + r.below(200), 'L'));
     string ops = "[";
     for (int k = 0; k < len; ++k) {
       if (k) ops += ",";
